@@ -1,5 +1,12 @@
 package vsched
 
+// PostRelease adds a scheduling point after every Unlock/RUnlock. Points before each
+// synchronisation operation are enough for race-free code; this option lets another thread run
+// between the end of a critical section and the statements that follow it, which is where a
+// shortened critical section (a read moved after the unlock) shows. It is set per scenario
+// before exploring or replaying and never changed during one.
+var PostRelease bool
+
 // RWState is the virtual state of a (RW)Mutex. Read sections are hashed commutatively: an
 // RLock depends only on the last write section, RUnlocks accumulate by addition into what the
 // next Lock depends on, so the order of concurrent readers is not part of the state key.
@@ -27,6 +34,9 @@ func RWUnlock(m *RWState) {
 	}
 	m.writer = false
 	m.wver = t.note(OpUnlock, m.wver)
+	if PostRelease {
+		Yield()
+	}
 }
 
 func RWRLock(m *RWState) {
@@ -42,6 +52,9 @@ func RWRUnlock(m *RWState) {
 	}
 	m.readers--
 	m.racc += t.note(OpRUnlock, 0)
+	if PostRelease {
+		Yield()
+	}
 }
 
 // WGState is the virtual state of a WaitGroup; Add events commute (sum of event hashes).
